@@ -301,16 +301,22 @@ def plan(pid: str, tier: str, seed: int) -> dict:
             allow_ref_mismatch=True,
         )
     if pid == "C11":
-        progs = [PR.by_name(n) for n in ("mutex2", "mutex3", "mutexfail", "choice2", "choice3")]
+        progs = [PR.by_name(n) for n in ("mutex2", "mutex3", "mutexfail", "mutexsusp", "choice2", "choice3")]
         nseed = 30 if quick else 400
         return dict(
             progs=progs, props=["C11_Mutex", "C11_ChoiceAtMostOne", "C11_ChoiceLosersCanceled", "C11_MutexWaiterRuns",
                                 "C11_ClaimsOfLiveKept", "C05_QuietMeansDone"],
             jobs=lambda refs: [{"kind": "schedule", "prog": p, "seeds": s,
                                 "opts": {"p_withhold": 0.15, "claim_sweep": True, "early": 2}}
-                               for p in progs for s in chunks(range(seed * 1000, seed * 1000 + nseed), 10)]
+                               for p in progs if p["name"] != "mutexsusp"    # (never goes quiet without its signal)
+                               for s in chunks(range(seed * 1000, seed * 1000 + nseed), 10)]
+                              + [   # suspended mutex holder: the signal arrives at every later point of the run
+                                 {"kind": "schedule", "prog": PR.by_name("mutexsusp"), "seeds": [seed * 1000 + at * 2 + sh],
+                                  "opts": {"p_withhold": 0.1 * sh, "signal_at": at, "signal_pers": True, "fifo_after": -1 if sh else 0,
+                                           "max_steps": 150}}
+                                 for at in range(1, 40, 1 if not quick else 2) for sh in (0, 1)]
                               + [{"kind": "crash", "prog": p, "points": pts, "late_expire": le}
-                                 for p in progs for le in (False, True)
+                                 for p in progs if p["name"] != "mutexsusp" for le in (False, True)
                                  for pts in chunks(range(1, refs[p["name"]]["commits"] + 1, 2 if quick else 1), 24)],
             component=lambda rep: __import__("harness.check_race", fromlist=["component"]).component(rep, tier, seed, "siblings"),
             mc=[(n, {"AnyOrder": "TRUE"}, {}) for n in ("mutex3", "choice3", "choice2", "mutexfail")]
